@@ -166,7 +166,7 @@ func (sb *smtBuilder) useSpec(sf *SpecFunc, app *Term, depth int, bound map[stri
 	if _, ok := sb.specUsed[name]; !ok {
 		sb.specUsed[name] = d
 		if d.Body != nil && !sf.Rec {
-			// dependencies of a define-fun body (params are bound)
+			// dependencies of a define-fun / opaque body (params are bound)
 			pb := map[string]bool{}
 			for _, p := range d.Params {
 				pb[p.Op] = true
@@ -308,7 +308,7 @@ func (o *Obligation) smtMode(w *World, extraAsserts []*Term, getValues []*Term, 
 	// simple approach: recursive ones declared up front; non-rec emitted in reverse discovery order (deps discovered later)
 	for _, name := range sb.specOrder {
 		d := sb.specUsed[name]
-		if d.SF.Rec || d.Body == nil {
+		if d.SF.Rec || d.SF.Opaque || d.Body == nil {
 			var ps []string
 			for _, p := range d.Params {
 				ps = append(ps, p.S.String())
@@ -317,6 +317,7 @@ func (o *Obligation) smtMode(w *World, extraAsserts []*Term, getValues []*Term, 
 		}
 	}
 	emitted := map[string]bool{}
+	var opaqueAx strings.Builder
 	var emit func(name string)
 	emit = func(name string) {
 		if emitted[name] {
@@ -325,6 +326,22 @@ func (o *Obligation) smtMode(w *World, extraAsserts []*Term, getValues []*Term, 
 		emitted[name] = true
 		d := sb.specUsed[name]
 		if d.SF.Rec || d.Body == nil {
+			return
+		}
+		if d.SF.Opaque {
+			// deps first, then the definitional axiom, triggered on the application
+			d.Body.walk(func(t *Term) {
+				if _, ok := sb.specUsed[t.Op]; ok && t.Op != name {
+					emit(t.Op)
+				}
+			})
+			var ps, as []string
+			for _, p := range d.Params {
+				ps = append(ps, fmt.Sprintf("(%s %s)", p.Op, p.S))
+				as = append(as, p.Op)
+			}
+			app := "(" + name + " " + strings.Join(as, " ") + ")"
+			fmt.Fprintf(&opaqueAx, "(assert (forall (%s) (! (= %s %s) :pattern (%s))))\n", strings.Join(ps, " "), app, sb.pr(d.Body), app)
 			return
 		}
 		// emit deps first
@@ -342,6 +359,7 @@ func (o *Obligation) smtMode(w *World, extraAsserts []*Term, getValues []*Term, 
 	for _, name := range sb.specOrder {
 		emit(name)
 	}
+	b.WriteString(opaqueAx.String())
 	for i := range decls {
 		d := &decls[i]
 		if !sb.needDecl[d.Name] {
@@ -482,6 +500,19 @@ func raceSolvers(file string, timeoutMs int, which []string) SolveResult {
 	if last.Status == "error" {
 		last.Output = strings.Join(errs, "\n")
 	}
+	if (last.Status == "unknown" || last.Status == "timeout") && pick("z3-new") {
+		// last resort: other random seeds (solver heuristics are seed-sensitive on nonlinear goals)
+		for _, seed := range []int{7, 23} {
+			sp := solverSpec{"z3-new", func(f string, t int) []string {
+				return []string{"z3-new", fmt.Sprintf("-t:%d", t), fmt.Sprintf("smt.random_seed=%d", seed), fmt.Sprintf("sat.random_seed=%d", seed), fmt.Sprintf("nlsat.seed=%d", seed), f}
+			}}
+			r := runSolver(context.Background(), sp, file, timeoutMs/2)
+			if r.Status == "sat" || r.Status == "unsat" {
+				r.Solver = fmt.Sprintf("z3-new(seed %d)", seed)
+				return r
+			}
+		}
+	}
 	return last
 }
 
@@ -531,6 +562,11 @@ func sanitizeFile(s string) string {
 }
 
 func (o *Obligation) prepare(w *World) {
+	defer func() {
+		if r := recover(); r != nil {
+			o.Static = fmt.Sprint("cannot generate SMT: ", r)
+		}
+	}()
 	if o.Static != "" || (!o.Cover && o.Goal.isTrue()) || o.fullSMT != "" {
 		return
 	}
@@ -562,47 +598,113 @@ func solveOne(w *World, o *Obligation, dir string, timeoutMs int) *OblResult {
 		return res
 	}
 	file := oblFile(dir, o)
-	full := o.fullSMT
-	if err := os.WriteFile(file, []byte(full), 0o644); err != nil {
+	if err := os.WriteFile(file, []byte(o.fullSMT), 0o644); err != nil {
 		res.R = SolveResult{Status: "error", Output: err.Error()}
 		return res
 	}
-	if o.ufSMT != "" {
-		// sound abstraction: products as an uninterpreted function, integrality dropped (congruence-only proofs)
-		ufile := strings.TrimSuffix(file, ".smt2") + ".ufmul.smt2"
-		os.WriteFile(ufile, []byte(o.ufSMT), 0o644)
-		r := runSolver(context.Background(), solvers[0], ufile, min(timeoutMs, 3000))
-		if r.Status == "unsat" {
-			r.Solver += "(uf-products)"
-			res.R = r
-			res.OK = true
-			return res
-		}
-	}
-	if o.weakSMT != "" {
-		// sound weakening: drop the integrality hypotheses (prove it for all reals in range); pure NRA is often faster
-		wfile := strings.TrimSuffix(file, ".smt2") + ".noint.smt2"
-		os.WriteFile(wfile, []byte(o.weakSMT), 0o644)
-		r := runSolver(context.Background(), solvers[0], wfile, min(timeoutMs, 4000))
-		if r.Status == "unsat" {
-			r.Solver += "(no-integrality)"
-			res.R = r
-			res.OK = true
-			return res
-		}
-	}
-	t := timeoutMs
 	if o.Cover {
-		t = 3000
-		res.R = raceSolvers(file, t, []string{"z3-new"})
+		res.R = raceSolvers(file, 3000, []string{"z3-new"})
 		res.OK = res.R.Status != "unsat"
 		if !res.OK {
 			res.Msg = "VACUOUS: path/precondition unsatisfiable"
 		}
 		return res
 	}
-	res.R = raceSolvers(file, t, nil)
-	res.OK = res.R.Status == "unsat"
+	t0 := time.Now()
+	type variant struct {
+		file   string
+		sp     solverSpec
+		label  string
+		full   bool // a sat answer is meaningful only for the unabstracted text
+	}
+	var ufile, wfile string
+	if o.ufSMT != "" {
+		ufile = strings.TrimSuffix(file, ".smt2") + ".ufmul.smt2"
+		os.WriteFile(ufile, []byte(o.ufSMT), 0o644)
+	}
+	if o.weakSMT != "" {
+		wfile = strings.TrimSuffix(file, ".smt2") + ".noint.smt2"
+		os.WriteFile(wfile, []byte(o.weakSMT), 0o644)
+	}
+	// stage 1: one cheap attempt
+	first := variant{file, solvers[0], "z3-new", true}
+	if ufile != "" {
+		first = variant{ufile, solvers[0], "z3-new(uf-products)", false}
+	}
+	r := runSolver(context.Background(), first.sp, first.file, min(timeoutMs, 1500))
+	if r.Status == "unsat" || (r.Status == "sat" && first.full) {
+		r.Solver = first.label
+		res.R = r
+		res.OK = r.Status == "unsat"
+		return res
+	}
+	// stage 2: everything else in parallel; first definite answer wins
+	vs := []variant{{file, solvers[0], "z3-new", true}, {file, solvers[2], "cvc5", true}, {file, solvers[1], "z3", true}}
+	if wfile != "" {
+		vs = append(vs, variant{wfile, solvers[0], "z3-new(no-integrality)", false})
+	}
+	if ufile != "" {
+		vs = append(vs, variant{ufile, solvers[2], "cvc5(uf-products)", false})
+	}
+	ctx, cancel := context.WithCancel(context.Background())
+	defer cancel()
+	ch := make(chan SolveResult, len(vs))
+	for _, v := range vs {
+		go func(v variant) {
+			r := runSolver(ctx, v.sp, v.file, timeoutMs)
+			r.Solver = v.label
+			if !v.full && r.Status == "sat" {
+				r.Status = "unknown"
+			}
+			if !v.full && r.Status != "unsat" {
+				r.File = ""
+			}
+			ch <- r
+		}(v)
+	}
+	var last SolveResult
+	var errs []string
+	for range vs {
+		r := <-ch
+		if r.Status == "sat" || r.Status == "unsat" {
+			r.Time = time.Since(t0).Seconds()
+			res.R = r
+			res.OK = r.Status == "unsat"
+			return res
+		}
+		if r.File == "" {
+			continue
+		}
+		if r.Status == "error" {
+			errs = append(errs, r.Solver+": "+firstLines(r.Output, 3))
+		}
+		if last.Status == "" || last.Status == "error" || r.Status != "error" {
+			last = r
+		}
+	}
+	if last.Status == "error" {
+		last.Output = strings.Join(errs, "\n")
+	}
+	if last.Status == "unknown" || last.Status == "timeout" {
+		for _, seed := range []int{7, 23} {
+			seed := seed
+			sp := solverSpec{"z3-new", func(f string, t int) []string {
+				return []string{"z3-new", fmt.Sprintf("-t:%d", t), fmt.Sprintf("smt.random_seed=%d", seed), fmt.Sprintf("sat.random_seed=%d", seed), fmt.Sprintf("nlsat.seed=%d", seed), f}
+			}}
+			r := runSolver(context.Background(), sp, file, timeoutMs/2)
+			if r.Status == "sat" || r.Status == "unsat" {
+				r.Solver = fmt.Sprintf("z3-new(seed %d)", seed)
+				r.Time = time.Since(t0).Seconds()
+				res.R = r
+				res.OK = r.Status == "unsat"
+				return res
+			}
+		}
+	}
+	last.Time = time.Since(t0).Seconds()
+	last.File = file
+	res.R = last
+	res.OK = false
 	return res
 }
 
